@@ -56,6 +56,7 @@ class SThread:
         self.daemon = True
         self.last_line = None
         self.wait_obj = None
+        self.wait_step = 0
 
     def __repr__(self):
         return "<T%d %s %s%s>" % (self.idx, self.name, self.state, (":" + str(self.what)) if self.state == "blocked" else "")
@@ -385,6 +386,7 @@ class Scheduler:
         t = self.me()
         if t is not None:
             t.wait_obj = obj
+            t.wait_step = self.steps
         if t is None:
             if pred():
                 return True
